@@ -229,7 +229,24 @@ func driveC16(c *Ctx) {
 			res := results[st.A%len(results)]
 			all := allSchemas(res)
 			tgt := all[st.B%len(all)]
-			switch (st.A + st.B) % 7 {
+			switch (st.A + st.B) % 8 {
+			case 7:
+				// write THROUGH the pointer-valued keywords that inference filled in (the result is
+				// the caller's own tree). TypeSchemas overrides in this corpus carry none of them.
+				for _, node := range all {
+					if node.Minimum != nil {
+						*node.Minimum = -41
+					}
+					if node.Maximum != nil {
+						*node.Maximum = 41
+					}
+					if node.MinItems != nil {
+						*node.MinItems = 7
+					}
+					if node.MaxItems != nil {
+						*node.MaxItems = 7
+					}
+				}
 			case 0:
 				tgt.Type, tgt.Types = "mutated", nil
 			case 1:
